@@ -1,4 +1,116 @@
 package main
 
-// thoroughExtras is filled in by selftest.go
-func thoroughExtras(id, evDir, knownF string, noSelf bool, seed int) int { return 0 }
+import (
+	"bytes"
+	"fmt"
+	"os"
+	"os/exec"
+	"path/filepath"
+	"sort"
+	"strings"
+)
+
+// The thorough tier adds, to the quick rules:
+//  (a) the same rules on two more build configurations (no build tags; GOARCH=386), in child processes;
+//  (b) the checker self-test: every seeded mutant of the property (selftest/mutants/<id>/*.diff and the reverts of the
+//      fix commits listed in selftest/reverts.txt) must be reported, every behaviour-preserving refactor
+//      (selftest/refactors/<id>/*.diff) must stay silent. Variants are applied to scratch copies outside /repo and /verif,
+//      analysed statically, and removed.
+type extraResult struct {
+	Name   string `json:"name"`
+	Kind   string `json:"kind"`
+	Expect string `json:"expect"`
+	Got    string `json:"got"`
+	OK     bool   `json:"ok"`
+	Out    string `json:"first_report,omitempty"`
+}
+
+func thoroughExtras(id, knownF string, noSelf bool) (results []extraResult, ok bool) {
+	ok = true
+	verif := verifDir()
+	self, _ := os.Executable()
+	run := func(args ...string) (int, string) {
+		cmd := exec.Command(self, args...)
+		var buf bytes.Buffer
+		cmd.Stdout = &buf
+		cmd.Stderr = &buf
+		err := cmd.Run()
+		code := 0
+		if err != nil {
+			if ee, isExit := err.(*exec.ExitError); isExit {
+				code = ee.ExitCode()
+			} else {
+				code = 99
+			}
+		}
+		return code, buf.String()
+	}
+	for _, cfg := range [][]string{{"-tags", ""}, {"-goarch", "386"}} {
+		code, out := run(append([]string{"-property", id, "-tier", "quick", "-evidence", "none", "-known", knownF}, cfg...)...)
+		res := extraResult{Name: strings.Join(cfg, "="), Kind: "build-configuration", Expect: "exit 0", Got: fmt.Sprintf("exit %d", code), OK: code == 0}
+		if code != 0 {
+			res.Out = firstLines(out, 3)
+			ok = false
+		}
+		results = append(results, res)
+	}
+	if noSelf {
+		return
+	}
+	variant := filepath.Join(verif, "tools", "variant.sh")
+	type v struct{ what, name, kind string }
+	var vs []v
+	for _, kind := range []string{"mutants", "refactors"} {
+		files, _ := filepath.Glob(filepath.Join(verif, "selftest", kind, id, "*.diff"))
+		sort.Strings(files)
+		for _, f := range files {
+			vs = append(vs, v{f, strings.TrimSuffix(filepath.Base(f), ".diff"), kind})
+		}
+	}
+	if b, err := os.ReadFile(filepath.Join(verif, "selftest", "reverts.txt")); err == nil {
+		for _, line := range strings.Split(string(b), "\n") {
+			f := strings.Fields(line)
+			if len(f) >= 2 && !strings.HasPrefix(line, "#") {
+				for _, pid := range strings.Split(f[0], ",") {
+					if pid == id {
+						vs = append(vs, v{"revert:" + f[1], "revert-" + f[1], "mutants"})
+					}
+				}
+			}
+		}
+	}
+	for _, x := range vs {
+		cmd := exec.Command(variant, x.what, id)
+		cmd.Env = append(os.Environ(), "VERIF_DIR="+verif)
+		var buf bytes.Buffer
+		cmd.Stdout = &buf
+		cmd.Stderr = &buf
+		err := cmd.Run()
+		code := 0
+		if err != nil {
+			if ee, isExit := err.(*exec.ExitError); isExit {
+				code = ee.ExitCode()
+			} else {
+				code = 99
+			}
+		}
+		want := 1
+		if x.kind == "refactors" {
+			want = 0
+		}
+		res := extraResult{Name: x.name, Kind: x.kind, Expect: fmt.Sprintf("exit %d", want), Got: fmt.Sprintf("exit %d", code), OK: code == want, Out: firstLines(buf.String(), 2)}
+		if !res.OK {
+			ok = false
+		}
+		results = append(results, res)
+	}
+	return
+}
+
+func firstLines(s string, n int) string {
+	lines := strings.Split(strings.TrimSpace(s), "\n")
+	if len(lines) > n {
+		lines = lines[:n]
+	}
+	return strings.Join(lines, " | ")
+}
